@@ -153,6 +153,114 @@ fn maybe_exempt_soft_family(seed: u64, sc: &mut Scenario, one_in: usize) {
     }
 }
 
+/// On a fraction of the seeds: a run of soft requirements that are rejected one right after the other. A package Q
+/// has 2..4 candidates, each uninstallable for a reason that only shows once it is looked at (Unknown dependencies, a
+/// requirement on a package without candidates, a requirement whose version set matches nothing, an exclusion);
+/// H requires Q and G requires H. The soft list names some or all of Q's candidates in a row, then H and/or G (which
+/// must be rejected too), mixed with installable solvables of fresh packages. A rejected soft requirement is recorded
+/// as a decision that has not been propagated when the next one starts.
+fn maybe_rejected_soft_run(seed: u64, sc: &mut Scenario, one_in: usize) {
+    use crate::world::{Deps, Package, Solvable, VersionSet};
+    let mut r = Rng::stream(seed, "rejected-soft-run");
+    if !r.chance(1, one_in) {
+        return;
+    }
+    let w = &mut sc.world;
+    let mut next_name = w.packages.keys().max().map(|m| m + 1).unwrap_or(0);
+    let mut next_s = w.solvables.keys().max().map(|m| m + 1).unwrap_or(0);
+    let mut next_vs = w.version_sets.keys().max().map(|m| m + 1).unwrap_or(0);
+    let empty = Package { candidates: vec![], rank: vec![], favored: None, locked: None, excluded: vec![], hint: Hint::None, missing: false };
+    // a package without candidates, and the package Q
+    let dead = next_name;
+    next_name += 1;
+    w.packages.insert(dead, Package { missing: r.chance(1, 3), ..empty.clone() });
+    let q = next_name;
+    next_name += 1;
+    let m = r.range(2, 4);
+    let mut qc = Vec::new();
+    let mut excluded = Vec::new();
+    for _ in 0..m {
+        let s = next_s;
+        next_s += 1;
+        let deps = match r.below(4) {
+            0 => Deps::Unknown(0),
+            1 => {
+                let vs = next_vs;
+                next_vs += 1;
+                w.version_sets.insert(vs, VersionSet { name: dead, matches: vec![] });
+                Deps::Known { requirements: vec![Req::Single(vs)], constrains: vec![] }
+            }
+            2 => {
+                // a version set of Q itself that matches nothing
+                let vs = next_vs;
+                next_vs += 1;
+                w.version_sets.insert(vs, VersionSet { name: q, matches: vec![] });
+                Deps::Known { requirements: vec![Req::Single(vs)], constrains: vec![] }
+            }
+            _ => {
+                excluded.push((s, 0));
+                Deps::Known { requirements: vec![], constrains: vec![] }
+            }
+        };
+        w.solvables.insert(s, Solvable { name: q, deps });
+        qc.push(s);
+    }
+    let mut rank = qc.clone();
+    r.shuffle(&mut rank);
+    let hint = match r.below(4) {
+        0 => Hint::All,
+        _ => Hint::None,
+    };
+    w.packages.insert(q, Package { candidates: qc.clone(), rank, favored: None, locked: None, excluded, hint, missing: false });
+    let mut single = |w: &mut crate::world::World, reqs: Vec<Req>| -> u32 {
+        let (n, s) = (next_name, next_s);
+        next_name += 1;
+        next_s += 1;
+        w.solvables.insert(s, Solvable { name: n, deps: Deps::Known { requirements: reqs, constrains: vec![] } });
+        w.packages.insert(n, Package { candidates: vec![s], rank: vec![s], ..empty.clone() });
+        s
+    };
+    let mut sorted_q = qc.clone();
+    sorted_q.sort();
+    let vs_q = next_vs;
+    next_vs += 1;
+    w.version_sets.insert(vs_q, VersionSet { name: q, matches: sorted_q });
+    let h = single(w, vec![Req::Single(vs_q)]);
+    let vs_h = next_vs;
+    w.version_sets.insert(vs_h, VersionSet { name: w.solvables[&h].name, matches: vec![h] });
+    let g = single(w, vec![Req::Single(vs_h)]);
+    // soft list: (optionally H first, so that Q's clauses exist before its candidates are asked for,) a run of Q's
+    // candidates, then H and/or G, sprinkled with installable fresh solvables
+    let mut soft = Vec::new();
+    if r.chance(1, 2) {
+        soft.push(if r.chance(1, 2) { h } else { g });
+    }
+    let mut run = qc.clone();
+    r.shuffle(&mut run);
+    run.truncate(r.range(2, run.len()));
+    soft.extend(run);
+    if r.chance(1, 3) {
+        soft.push(single(w, vec![]));
+    }
+    for x in [g, h] {
+        if r.chance(2, 3) {
+            soft.push(x);
+        }
+    }
+    if r.chance(1, 2) {
+        soft.push(single(w, vec![]));
+    }
+    let p = &mut sc.solves[0].problem;
+    if r.chance(1, 2) {
+        p.requirements.clear();
+        p.constraints.clear();
+    }
+    let pos = r.below(p.soft.len() + 1);
+    for (k, x) in soft.into_iter().enumerate() {
+        p.soft.insert(pos + k, x);
+    }
+}
+
 /// On a fraction of the seeds: a wide fan-out world (31..60 requirements on distinct packages, packages with more
 /// than 30 hinted candidates, unions with more than 30 members).
 fn maybe_wide(seed: u64, sc: &mut Scenario, one_in: usize) -> bool {
@@ -272,6 +380,7 @@ impl Property for C01 {
         let mut sc = std_scenario(seed, &swarm(seed, base, tier), None);
         maybe_unrequested_soft(seed, &mut sc, 6);
         maybe_exempt_soft_family(seed, &mut sc, 10);
+        maybe_rejected_soft_run(seed, &mut sc, 12);
         sc.capture_state = true;
         // cancellation fault on some seeds: whatever comes back as Ok must still be valid
         let mut fr = Rng::stream(seed, "faults");
@@ -767,6 +876,7 @@ impl Property for C04 {
         let mut sc = std_scenario(seed, &swarm(seed, base, tier), None);
         maybe_unrequested_soft(seed, &mut sc, 4);
         maybe_exempt_soft_family(seed, &mut sc, 10);
+        maybe_rejected_soft_run(seed, &mut sc, 12);
         maybe_wide(seed, &mut sc, 300);
         maybe_chain(seed, &mut sc, 4000);
         sc.render = true;
@@ -1956,6 +2066,7 @@ impl Property for C14 {
         let mut sc = std_scenario(seed, &swarm(seed, base, tier), None);
         maybe_unrequested_soft(seed, &mut sc, 4);
         maybe_exempt_soft_family(seed, &mut sc, 8);
+        maybe_rejected_soft_run(seed, &mut sc, 12);
         maybe_wide(seed, &mut sc, 400);
         if sc.solves[0].problem.soft.is_empty() && !sc.world.solvables.is_empty() {
             let mut r = Rng::stream(seed, "soft");
